@@ -288,13 +288,17 @@ func (s *v4Server) rmLeaseByIndex(i int) {
 //
 // TODO(s.chzhen):  Refactor the code.
 func (s *v4Server) rmDynamicLease(lease *dhcpsvc.Lease) (err error) {
+	// Look for a conflicting static lease before removing anything, so that
+	// the leases are left intact when an error is returned.
+	for _, l := range s.leases {
+		if l.IsStatic && (bytes.Equal(l.HWAddr, lease.HWAddr) || l.IP == lease.IP) {
+			return errors.Error("static lease already exists")
+		}
+	}
+
 	for i := 0; i < len(s.leases); {
 		l := s.leases[i]
 		if bytes.Equal(l.HWAddr, lease.HWAddr) || l.IP == lease.IP {
-			if l.IsStatic {
-				return errors.Error("static lease already exists")
-			}
-
 			// Don't advance, since the next lease is now at index i.
 			s.rmLeaseByIndex(i)
 
@@ -513,11 +517,39 @@ func (s *v4Server) validateStaticLease(l *dhcpsvc.Lease) (err error) {
 	return nil
 }
 
+// validateNewStaticLease returns an error if addLease would reject the new
+// static lease l once the dynamic leases conflicting with it are removed.  It
+// doesn't modify s or l.
+func (s *v4Server) validateNewStaticLease(l *dhcpsvc.Lease) (err error) {
+	if sn := s.conf.subnet; !sn.Contains(l.IP) {
+		return fmt.Errorf("subnet %s does not contain the ip %q", sn, l.IP)
+	}
+
+	if l.Hostname == "" {
+		return nil
+	}
+
+	// The hostnames of dynamic leases are emptied by rmDynamicLease.
+	if dup, ok := s.hostsIndex[l.Hostname]; ok && dup.IsStatic {
+		return ErrDupHostname
+	}
+
+	return nil
+}
+
 // updateStaticLease safe removes dynamic lease with the same properties and
 // then adds a static lease l.
 func (s *v4Server) updateStaticLease(l *dhcpsvc.Lease) (err error) {
 	s.leasesLock.Lock()
 	defer s.leasesLock.Unlock()
+
+	// Make sure that l can be added before removing the dynamic leases it
+	// replaces, since otherwise a rejected static lease would still change the
+	// lease table.
+	err = s.validateNewStaticLease(l)
+	if err != nil {
+		return fmt.Errorf("adding static lease for %s (%s): %w", l.IP, l.HWAddr, err)
+	}
 
 	err = s.rmDynamicLease(l)
 	if err != nil {
